@@ -129,8 +129,10 @@ def unlock (s : State) (k : Nat) : State :=
 def complete (cfg : Cfg) (t k : Nat) (r : List Nat) (s : State) : State :=
   let res := cfg.outcome k
   let s := emit { s with processed := s.processed + 1 } (.ret k)
-  let s := unlock (setSlot s k (.done res)) k
-  setCtl (emit s (.seen t k res)) t .ready r
+  let s := setSlot s k (.done res)
+  -- (the guard is dropped before the task records what it saw; the two touch disjoint parts of
+  --  the state, the model applies `unlock` last)
+  unlock (setCtl (emit s (.seen t k res)) t .ready r) k
 
 /-- task `t` polls its lock future for key `k` (fresh, or already registered); `r` is its program
     after this lookup. Returns the new state and whether the lookup completed (the poll goes on). -/
@@ -139,13 +141,13 @@ def lookup (cfg : Cfg) (t k : Nat) (r : List Nat) (s : State) : State × Bool :=
   | .held _ =>
     (setCtl (setWaiters s k (register (s.waiters k) t)) t (.waiting k) r, false)
   | .done res =>
-    let s := unlock (setWaiters s k (deregister (s.waiters k) t)) k
-    (setCtl (emit s (.seen t k res)) t .ready r, true)
+    let s := setWaiters s k (deregister (s.waiters k) t)
+    (unlock (setCtl (emit s (.seen t k res)) t .ready r) k, true)
   | .empty =>
     let s := setWaiters s k (deregister (s.waiters k) t)
     let s := setSlot (emit { s with requested := s.requested + 1 } (.call k)) k (.held t)
     match (cfg.sup k).delay with
-    | 0 => (complete cfg t k r s, true)
+    | 0 => (complete cfg t k r (setCtl s t (.inSup k 0) r), true)
     | n + 1 => (setWoken (setCtl s t (.inSup k n) r) t true, false)
 
 /-- the rest of a poll of task `t`, which is `ready` with program `ks` -/
@@ -202,8 +204,32 @@ def seenBy (t : Nat) (log : List Event) : List (Nat × Res) :=
 
 def callCount (k : Nat) (log : List Event) : Nat := log.count (.call k)
 
+/-- remove duplicates (keeps the last occurrence) -/
+def dedup : List Nat → List Nat
+  | [] => []
+  | a :: l => if a ∈ dedup l then dedup l else a :: dedup l
+
 /-- all keys mentioned by the programs, without duplicates -/
-def allKeys (cfg : Cfg) : List Nat := cfg.progs.flatten.eraseDups
+def allKeys (cfg : Cfg) : List Nat := dedup cfg.progs.flatten
+
+def Slot.isDone : Slot → Bool
+  | .done _ => true
+  | _ => false
+
+def Slot.nonEmpty : Slot → Bool
+  | .empty => false
+  | _ => true
+
+/-- what a task still has to look up, including the lookup it is in the middle of -/
+def todo (T : Task) : List Nat :=
+  match T.ctl with
+  | .ready => T.rest
+  | .waiting k => k :: T.rest
+  | .inSup k _ => k :: T.rest
+  | .fin => []
+
+/-- the answer every lookup of key `k` must see: a function of the supplier table only -/
+def expected (cfg : Cfg) (k : Nat) : Nat × Res := (k, cfg.outcome k)
 
 /-! ### executors used by the tie -/
 
